@@ -16,7 +16,12 @@ def sh(cmd, cwd=None):
     return p.returncode, p.stdout
 
 
+ALL_PROPS = ["C01", "C02", "C03", "C04", "C05", "C06", "C07", "C09", "C10", "C11", "C12", "C13", "C14", "C15", "C17", "C18", "C19", "C20"]
+
+
 def main():
+    cross = "--all" in sys.argv
+    sys.argv = [a for a in sys.argv if a != "--all"]
     ids = sys.argv[1:] or sorted(d for d in os.listdir(ROOT + "/seeded") if os.path.isdir(ROOT + "/seeded/" + d))
     rc, o = sh("git -C /repo status --porcelain")
     if o.strip():
@@ -40,11 +45,23 @@ def main():
             und = [l.strip() for l in o.splitlines() if l.startswith("UNDECIDED")]
             status = {0: "missed (check passes)", 1: "caught", 2: "no verdict (exit 2)"}.get(rc, "exit %d" % rc)
             results[i] = {"property": prop, "status": status, "violations": [v[:400] for v in viol][:4], "undecided": [u[:300] for u in und][:3], "summary": meta.get("summary", "")[:300]}
+            if cross and rc != 1:
+                others = []
+                for q in ALL_PROPS:
+                    if q == prop:
+                        continue
+                    rc2, o2 = sh("./check %s quick" % q, cwd=ROOT)
+                    if rc2 == 1:
+                        v2 = [l.strip() for l in o2.splitlines() if l.strip().startswith("violation:")]
+                        others.append({"property": q, "violation": (v2 or [""])[0][:300]})
+                results[i]["caught_by_other_checks"] = others
+                if others:
+                    results[i]["status"] = "caught by the check of " + ",".join(x["property"] for x in others)
         finally:
             sh("git -C /repo checkout -- . && git -C /repo clean -fdq")
     json.dump(results, open(res_path, "w"), indent=1, sort_keys=True)
     # restore evidence of the unchanged tree for the properties we touched
-    for prop in sorted({r["property"] for k, r in results.items() if k in ids}):
+    for prop in (ALL_PROPS if cross else sorted({r["property"] for k, r in results.items() if k in ids})):
         sh("./check %s quick" % prop, cwd=ROOT)
     for i in sorted(results):
         r = results[i]
